@@ -88,7 +88,7 @@ def emit_param_str(
                             else "",
                         )
                     )
-                    if emit_type and _param.get("typ")
+                    if emit_type and (_param.get("typ") or name != "return_type")
                     else None,
                     _fill(
                         indent(
@@ -120,7 +120,7 @@ def emit_param_str(
                         typ="{!s}".format(_param["typ"]) if _param.get("typ") else "",
                     )
                     if _param.get("typ")
-                    else None,
+                    else "  {name}: ".format(name=name),
                     "{nl}{tab}{doc}".format(
                         doc=set_default_doc(
                             (name, _param), emit_default_doc=emit_default_doc
